@@ -165,12 +165,20 @@ func genHostileFramed(t *rapid.T, tpl *gen.Template) ([]byte, string) {
 	if rapid.IntRange(0, 9).Draw(t, "nearValid") < 6 {
 		// tokens of a valid population, then token-level damage: the result
 		// stays correctly framed and goes deep into group parsing
-		po := gen.PopOpts{Small: true, Decoys: true, PresentPct: 75, MaxEntries: 3}
+		po := gen.PopOpts{Small: true, Decoys: true, PresentPct: rapid.SampledFrom([]int{75, 75, 30}).Draw(t, "presentPct"), MaxEntries: 3}
 		c := gen.Populate(t, *tpl, po)
 		h, b, tr := gen.Wire(c)
 		var toks []ref.Tok
+		var firsts []int // positions of the fields that open a group entry
 		for _, l := range append(append(h, b...), tr...) {
+			if l.First {
+				firsts = append(firsts, len(toks))
+			}
 			toks = append(toks, l.Tok)
+		}
+		if len(firsts) > 0 && rapid.IntRange(0, 3).Draw(t, "emptyDelimiter") == 0 {
+			// an entry whose opening field has an empty value (tag= and nothing): legal bytes, odd entry
+			toks[rapid.SampledFrom(firsts).Draw(t, "emptyAt")].Val = ""
 		}
 		k := rapid.IntRange(1, 3).Draw(t, "tokEdits")
 		for i := 0; i < k && len(toks) > 0; i++ {
